@@ -135,3 +135,8 @@ Fixpoint zipop {A} (op : A -> A -> A) (a b : list A) : list A :=
   | x :: a', y :: b' => op x y :: zipop op a' b'
   | _, _ => []
   end.
+
+(* /repo HEAD after fix 25c790a: baumWelchThread resets tr only `if tr != nil`, so the configuration without
+   transitions no longer dereferences the nil accumulator (bw_cfg above is the code before that fix, kept for the
+   refutation theorem and selected by the harness probe when the panic is observed) *)
+Definition bw_cfg_head (optimizeEmissions optimizeTransitions : bool) : ocfg := mkOcfg optimizeTransitions optimizeEmissions false.
